@@ -192,6 +192,83 @@ where
     }
 }
 
+/// contract of the provided method VerifierChannel::read_layer_queries (used by the FRI and the STARK verifier
+/// channels): it returns values only if MerkleTree::verify_batch accepts the layer opening for exactly the
+/// given positions and commitment - whatever the reason verify_batch refuses for
+fn layer_query_contract<B, H>(tag: &str, rng: &mut Rng, cases: &mut u64)
+where
+    B: StarkField,
+    H: crypto::ElementHasher<BaseField = B>,
+{
+    use crypto::MerkleTree;
+    use winter_fri::{folding::fold_positions, VerifierChannel};
+    const N: usize = 4;
+    for (domain, blowup, queries) in [(64usize, 4usize, 3usize), (256, 8, 9), (1024, 8, 20)] {
+        let options = FriOptions::new(blowup, N, 3);
+        let evals = evaluations::<B>(domain / blowup, domain, rng);
+        let mut channel = DefaultProverChannel::<B, H, DefaultRandomCoin<H>>::new(domain, queries);
+        let mut prover: FriProver<B, B, DefaultProverChannel<B, H, DefaultRandomCoin<H>>, H> = FriProver::new(options.clone());
+        prover.build_layers(&mut channel, evals);
+        let positions = channel.draw_query_positions(0);
+        let proof = prover.build_proof(&positions);
+        let commitments = channel.layer_commitments().to_vec();
+        let honest = fold_positions(&positions, domain, N);
+        let leaves = domain / N;
+        let mut lists: Vec<(String, Vec<usize>)> = vec![
+            ("the honest folded positions".into(), honest.clone()),
+            ("no positions".into(), vec![]),
+            ("all positions zero".into(), vec![0; honest.len()]),
+            ("every leaf".into(), (0..leaves).collect()),
+            ("more positions than leaves".into(), (0..=leaves).collect()),
+        ];
+        for k in 0..honest.len() {
+            let mut l = honest.clone();
+            l[k] = honest[(k + 1) % honest.len()];
+            lists.push((format!("position {k} duplicated from its neighbour"), l));
+            for v in [leaves, leaves + 1, usize::MAX, (honest[k] + 1) % leaves] {
+                let mut l = honest.clone();
+                l[k] = v;
+                lists.push((format!("position {k} replaced by {v}"), l));
+            }
+            let mut l = honest.clone();
+            l.remove(k);
+            lists.push((format!("position {k} dropped"), l));
+            let mut l = honest.clone();
+            l.push(honest[k]);
+            lists.push((format!("position {k} repeated at the end"), l));
+        }
+        for (what, list) in lists {
+            for bad_root in [false, true] {
+                let mk = || DefaultVerifierChannel::<B, H>::new(proof.clone(), commitments.clone(), domain, N).unwrap();
+                let commitment = if bad_root { commitments[1] } else { commitments[0] };
+                let reference = catch_unwind(AssertUnwindSafe(|| {
+                    let mut c = mk();
+                    let layer_proof = c.take_next_fri_layer_proof();
+                    MerkleTree::<H>::verify_batch(&commitment, &list, &layer_proof).is_ok()
+                }));
+                let got = catch_unwind(AssertUnwindSafe(|| {
+                    let mut c = mk();
+                    c.read_layer_queries::<N>(&list, &commitment).is_ok()
+                }));
+                *cases += 1;
+                let honest_ok = matches!(reference, Ok(true));
+                match (reference, got) {
+                    (Ok(r), Ok(g)) if r == g => {},
+                    (Ok(r), Ok(g)) => fail(format!(
+                        "read_layer_queries returned {} although verify_batch {} the opening: field={tag} domain={domain} positions: {what} wrong_commitment={bad_root}",
+                        if g { "values" } else { "an error" },
+                        if r { "accepts" } else { "refuses" }
+                    )),
+                    _ => fail(format!("read_layer_queries / verify_batch panicked: field={tag} domain={domain} positions: {what}")),
+                }
+                if what.starts_with("the honest") && !bad_root && !honest_ok {
+                    fail(format!("the honest layer opening is refused: field={tag} domain={domain}"));
+                }
+            }
+        }
+    }
+}
+
 #[test]
 fn fri_end_to_end_bounded() {
     let mut rng = Rng(0xA0761D6478BD642F ^ seed().wrapping_mul(0xE7037ED1A0B428DB) | 1);
@@ -199,5 +276,7 @@ fn fri_end_to_end_bounded() {
     grid::<f128::BaseElement, Blake3_256<f128::BaseElement>>("f128", &mut rng, &mut cases);
     grid::<f64::BaseElement, Blake3_256<f64::BaseElement>>("f64", &mut rng, &mut cases);
     above_bound::<f128::BaseElement, Blake3_256<f128::BaseElement>>("f128", &mut rng, &mut cases);
+    layer_query_contract::<f128::BaseElement, Blake3_256<f128::BaseElement>>("f128", &mut rng, &mut cases);
+    layer_query_contract::<f64::BaseElement, Blake3_256<f64::BaseElement>>("f64", &mut rng, &mut cases);
     println!("NB-RESULT name=fri_end_to_end_bounded cases={cases}");
 }
